@@ -228,7 +228,6 @@ def St.resolved (st : St) (plain : Bool) (p : Path) : St :=
 def mustNotBeNull : String := "must not be null"
 def elementIsNull : String := "the requested element is null which the schema does not allow"
 
-def illTypedScalarElem : String := "model: nil element in a list of non-null scalars"
 
 /-- effects compose by concatenation -/
 def St.append (a b : St) : St :=
@@ -335,8 +334,11 @@ def completeElems (o : Oracle) (elem : Shape) (elemCtx : Bool) :
   | v :: rest, p, i, st =>
     let r :=
       if !elemCtx && elem.nn && v.isNull then
-        -- excluded by the Go types: a list of non-null scalars has non-nilable elements
-        (Out.null, st.addErr p illTypedScalarElem)
+        -- a scalar element has no field context of its own: `marshalN<scalar>` reports "the requested element
+        -- is null" at the FIELD's path unless the field already has an error, i.e. once per list however many
+        -- elements are null (a null can be there only through a user marshaler returning graphql.Null or a
+        -- model with a slice of pointers). Modelled as: the last null element of the list reports it.
+        (Out.null, if rest.any V.isNull then st else st.addErr p elementIsNull)
       else completeValue o elem v (if elemCtx then p ++ [.idx i] else p) st
     let rs := completeElems o elem elemCtx rest p (i + 1) r.2
     (r.1 :: rs.1, rs.2)
